@@ -530,7 +530,11 @@ func redactPipelineStage(stage interface{}, redactFieldNames bool, keyPath []str
 		isSelectivelyRedactable := isRedactableFieldPatternInArray(s)
 		return redactArrayValues(s, redactFieldNames, inSearchStage, isSelectivelyRedactable, keyPath)
 	default:
-		return stage
+		if len(keyPath) == 0 || stage == nil {
+			return stage
+		}
+		// a literal that is a direct element of an operator array, e.g. {$and: ["x", ...]}
+		return redactArrayValues([]any{stage}, redactFieldNames, inSearchStage, false, keyPath)[0]
 	}
 }
 
